@@ -7,6 +7,7 @@ encoder: for a text and a chosen valid spelling (quote kind, fence depth, raw, e
 formatted), the literal must denote exactly that text; a formatted string equals the join of the
 to_str / format of its parts."""
 import json
+import os
 import random
 
 import coregen
@@ -207,10 +208,137 @@ def boundary_part(chk, tier):
     chk.part("boundaries", texts=len(texts), values_validated=len(recs))
 
 
+# --------------------------------------------------------------------------------------------
+# regular expressions: positions are code-point positions (acceptor XrRegex)
+
+RX_ALPHA = ["a", "b", "é", "中", "\U0001F600"]          # 1, 1, 2, 3, 4 bytes
+
+
+def rx_gen(rnd, depth, gctr):
+    k = rnd.random()
+    if depth <= 0 or k < 0.3:
+        return {"t": "any"} if rnd.random() < 0.15 else {"t": "sym", "c": rnd.randrange(len(RX_ALPHA))}
+    if k < 0.55:
+        return {"t": "cat", "a": rx_gen(rnd, depth - 1, gctr), "b": rx_gen(rnd, depth - 1, gctr)}
+    if k < 0.7:
+        return {"t": "alt", "a": rx_gen(rnd, depth - 1, gctr), "b": rx_gen(rnd, depth - 1, gctr)}
+    if k < 0.9:
+        return {"t": rnd.choice(["star", "plus", "opt"]), "a": rx_gen(rnd, depth - 1, gctr)}
+    gctr[0] += 1
+    kk = gctr[0]
+    return {"t": "grp", "k": kk, "a": rx_gen(rnd, depth - 1, gctr)}
+
+
+def rx_text(p):
+    t = p["t"]
+    if t == "sym":
+        return RX_ALPHA[p["c"]]
+    if t == "any":
+        return "."
+    if t == "cat":
+        return rx_text(p["a"]) + rx_text(p["b"])
+    if t == "alt":
+        return "(?:%s|%s)" % (rx_text(p["a"]), rx_text(p["b"]))
+    if t == "grp":
+        return "(%s)" % rx_text(p["a"])
+    return "(?:%s)%s" % (rx_text(p["a"]), {"star": "*", "plus": "+", "opt": "?"}[t])
+
+
+def rx_ngroups(p):
+    return (1 if p["t"] == "grp" else 0) + sum(rx_ngroups(p[f]) for f in ("a", "b") if f in p)
+
+
+def rx_record(v, m):
+    rec = {"ev": "Rx", "p": m["p"], "s": m["s"], "i": m["i"], "j": m["j"], "found": bool(v["f"].get("v")), "st": 0, "en": 0, "txt": [], "groups": []}
+    if rec["found"]:
+        spans = v["g"]["v"]["v"]
+        t0 = v["t"]["v"]["v"]["v"]
+        rec["st"], rec["en"] = int(spans[0]["v"]["v"][0]["v"]), int(spans[0]["v"]["v"][1]["v"])
+        rec["txt"] = [RX_ALPHA.index(ch) for ch in t0]
+        for k in range(1, len(spans)):
+            sp = spans[k]["v"]
+            rec["groups"].append({"k": k, "has": sp is not None, "st": int(sp["v"][0]["v"]) if sp else 0, "en": int(sp["v"][1]["v"]) if sp else 0})
+        if len(spans) != rx_ngroups(m["p"]) + 1:
+            raise ValueError("group count %d, pattern has %d" % (len(spans) - 1, rx_ngroups(m["p"])))
+    return rec
+
+
+def regex_part(chk, n, seed):
+    """search / match over texts mixing 1-4 byte characters: every answer of the interpreter (found or not, group spans,
+    the text of group 0) is one record decided by the acceptor XrRegex (leftmost start, a word of the pattern, spans and
+    text in code points)."""
+    rnd = random.Random(seed * 7919 + 18)
+    jobs, metas = [], {}
+    for c in range(n):
+        gctr = [0]
+        # groups are numbered in the order their "(" appears: generate, then renumber in pre-order
+        p = rx_gen(rnd, rnd.choice([1, 2, 2, 3]), gctr)
+        ctr = [0]
+
+        def renum(q):
+            if q["t"] == "grp":
+                ctr[0] += 1
+                q["k"] = ctr[0]
+            for f in ("a", "b"):
+                if f in q:
+                    renum(q[f])
+        renum(p)
+        s = [rnd.randrange(len(RX_ALPHA)) for _ in range(rnd.choice([0, 1, 2, 3, 4, 5, 6, 8]))]
+        txt = "".join(RX_ALPHA[k] for k in s)
+        i = rnd.choice([0, 0, 1, 2, len(s), max(0, len(s) - 1)])
+        form = rnd.choice(["search2", "search1", "search3", "match"])
+        if form == "search1":
+            call, i, j = "r.search(s)", 0, len(s)
+        elif form == "search2":
+            call, j = "r.search(s, %d)" % i, len(s)
+        elif form == "search3":
+            j = rnd.choice([i, i + 1, len(s), len(s) + 3, len(txt.encode("utf-8")) + 1])
+            call = rnd.choice(["r.search(s, %d, %d)", "r.search(s, %d, some(%d))"]) % (i, j)
+        else:
+            call, j = "r.match(s, %d)" % i, i
+        src = ("let r = regex(%s);\nlet s = %s;\nlet m = %s;\nlet f = m.has_value();\n"
+               "let g = m.map((m: Match)->{m::_groups});\nlet t = m.map((m: Match)->{m[0]});\n"
+               % (json.dumps(rx_text(p), ensure_ascii=False), json.dumps(txt, ensure_ascii=False), call))
+        jid = "rx%d" % c
+        jobs.append({"id": jid, "src": src, "observe": ["f", "g", "t"], "limits": {"calls": 100000, "search": 100000}, "perms": {"regex": True}})
+        metas[jid] = {"p": p, "s": s, "i": i, "j": j, "ngroups": ctr[0]}
+    res = vf.run_jobs(jobs, "c18-regex")
+    recs = []
+    for jb in jobs:
+        o, m = res[jb["id"]], metas[jb["id"]]
+        chk.count(1)
+        oc = vf.job_outcome(o)
+        if oc != "ok":
+            chk.violation("regex program: %s %s" % (oc, str(o.get("compile", {}).get("msg") or o.get("inst") or o.get("crash"))[:300]),
+                          {"kind": "regex", "source": jb["src"], "observed": oc}, finding_key="regex:" + oc)
+            continue
+        v = o["values"]
+        try:
+            rec = rx_record(v, m)
+        except (KeyError, TypeError, ValueError, IndexError) as ex:
+            chk.violation("regex answer cannot be read (%s): %s" % (ex, json.dumps(v, ensure_ascii=False)[:300]),
+                          {"kind": "regex", "source": jb["src"], "observed": v}, finding_key="regex:shape")
+            continue
+        rec["_job"] = jb["id"]
+        if rec["found"]:
+            chk.nontrivial(jb["src"])
+        recs.append(rec)
+    for t in vf.accept_records(chk, "XrRegex", recs, "c18-regex"):
+        src = [j["src"] for j in jobs if j["id"] == t["_job"]][0]
+        chk.violation("regex answer is not the leftmost match in code points: found=%s span=(%s, %s) text=%r for %s" %
+                      (t["found"], t["st"], t["en"], "".join(RX_ALPHA[k] for k in t["txt"]), src.replace("\n", " ")[:200]),
+                      {"kind": "regex", "source": src, "record": {k: v for k, v in t.items() if not k.startswith("_")}}, finding_key="regex:answer")
+    chk.part("regex", programs=len(jobs), found=sum(1 for r in recs if r["found"]))
+
+
 def run(chk, tier, seed):
     rnd = random.Random(seed)
+    if os.environ.get("VERIF_ONLY") == "regex":          # development aid: one part alone
+        regex_part(chk, 600 if tier == "quick" else 6000, seed)
+        return
     jobs = strings_part(chk, 2500 if tier == "quick" else 10000, seed)
     boundary_part(chk, tier)
+    regex_part(chk, 600 if tier == "quick" else 6000, seed)
     # literals
     lits = literal_cases(rnd, 400 if tier == "quick" else 5000)
     lj = []
@@ -271,6 +399,20 @@ def replay(chk, path):
     chk.nontrivial("replay")
     chk.nontrivial(rp["source"])
     chk.sample({"source": rp["source"][:300], "outcome": oc})
+    if rp.get("kind") == "regex":
+        o = vf.run_jobs([{"id": "r", "src": rp["source"], "observe": ["f", "g", "t"], "perms": {"regex": True}, "limits": {"calls": 100000, "search": 100000}}], "replay")["r"]
+        if vf.job_outcome(o) != "ok" or "record" not in rp:
+            if vf.job_outcome(o) != "ok":
+                chk.violation("still " + vf.job_outcome(o), rp)
+            return chk.finish()
+        try:
+            rec = rx_record(o["values"], rp["record"])
+        except (KeyError, TypeError, ValueError, IndexError):
+            chk.violation("still unreadable", rp)
+            return chk.finish()
+        if vf.accept_records(chk, "XrRegex", [rec], "c18-replay-regex"):
+            chk.violation("still not the leftmost code-point match", rp)
+        return chk.finish()
     if rp.get("kind") == "str-repr" and oc == "ok":
         d = o["values"].get(names[0]) or {}
         if d.get("t") == "str" and vf.accept_records(chk, "XrStrRepr", [str_record(d)], "c18-replay-repr"):
